@@ -16,6 +16,7 @@ import Sgz.Model.Window
 import Sgz.Model.Container
 import Sgz.Model.Header
 import Sgz.Model.Coords
+import Sgz.Model.HeaderReads
 /-!
 Line-protocol driver over the executable model (`Sgz/Model`, Mathlib-free).  One request per line, one answer per
 line.  The Python harness sends the same request to the real implementation and diffs canonical answers.
@@ -462,8 +463,48 @@ def handleHeader (ws : List String) : String :=
     | none => "bad-op"
   | _ => "bad-op"
 
+def digestInt (xs : List Int) : Nat := digestNat (xs.map fun v => (v + 2147483648).toNat)
+
+/-- `hhist GRID IS3D STRUCTURED FOOTER STRIDE LEN ILFIELD ; c:d c:d … ; hole hole … ; op ; op …` with ops `hdr T`, `hdrall T`, `tfv F`,
+`rvh 0|1`, `rvh1 0|1 F`, `clear`: the header-reading state machine of one reader on a file whose footer array `k` holds `(k+1)·10⁶ + p + 1` at grid
+slot `p` (0 at holes).  Answer per op: outcome, digest of the values, range reads issued. -/
+def handleHHist (line : String) : String :=
+  match line.splitOn ";" with
+  | head :: rowsS :: holesS :: ops =>
+    let toks (x : String) := (x.trimAscii.toString.splitOn " ").filter (· ≠ "")
+    match (toks head).mapM String.toNat? with
+    | some [grid, is3d, structured, footer, stride, len, ilField] =>
+      let rows := (toks rowsS).map fun w =>
+        match w.splitOn ":" with
+        | [c, d] => ((c.toInt?.getD 0, d.toNat?.getD 0) : Headers.Row)
+        | _ => (0, 0)
+      let holes := (toks holesS).filterMap String.toNat?
+      let h : HeaderReads.HFile :=
+        { tbl := rows, grid := grid, is3d := is3d == 1, structured := structured == 1,
+          hole := fun p => holes.contains p, footer := footer, stride := stride, len := len,
+          val := fun k p => if holes.contains p then 0 else ((k + 1) * 1000000 + p + 1 : Nat) }
+      let ilArray := (HeaderReads.arrayOf h ilField).getD 0
+      let parsed := ops.map fun o =>
+        match toks o with
+        | ["hdr", t] => t.toNat?.map HeaderReads.HOp.hdr
+        | ["hdrall", t] => t.toNat?.map HeaderReads.HOp.hdrAll
+        | ["tfv", f] => f.toNat?.map HeaderReads.HOp.tfv
+        | ["rvh", b] => b.toNat?.map fun v => HeaderReads.HOp.rvh (v == 1)
+        | ["rvh1", b, f] => b.toNat?.bind fun v => f.toNat?.map fun g => HeaderReads.HOp.rvh1 (v == 1) g
+        | ["clear"] => some HeaderReads.HOp.clear
+        | _ => none
+      if parsed.any (·.isNone) then "bad-op" else
+      let rs := HeaderReads.run h ilArray HeaderReads.HSt.init (parsed.filterMap id)
+      " ; ".intercalate (rs.map fun r =>
+        match r with
+        | .error e => s!"err {e}"
+        | .ok o => s!"ok {o.vals.length} {digestInt o.vals} {",".intercalate (o.fetches.map fun (a, b) => s!"{a}:{b}")}")
+    | _ => "bad-op"
+  | _ => "bad-op"
+
 def handle (line : String) : String :=
   if line.startsWith "hist " then handleHist (line.drop 5).toString else
+  if line.startsWith "hhist " then handleHHist (line.drop 6).toString else
   if line.startsWith "hwtable " then handleHwTable (line.drop 8).toString else
   match (line.trimAscii.toString.splitOn " ").filter (· ≠ "") with
   | "read" :: rest => handleRead rest
